@@ -501,11 +501,9 @@ type c28Hist struct {
 	admHour   []c28Admit // admitted, Limit = per-hour limit in force
 	admQH     []c28Admit // admitted, Limit = hourly quota in force
 	admQD     []c28Admit // admitted, Limit = daily quota in force
-	log       []string
 	rejects   int
 	rotated   bool
 	boundary  bool
-	monotone  bool
 }
 
 func c28BucketCount(adm []c28Admit, t, size int64) int {
@@ -557,42 +555,90 @@ func c28RingLens(m *Manager, token int64) (rm, rh int, spanMin, spanHour int64) 
 
 var c28MgrGeoms = []c28Geom{{int64(time.Minute), time.Second}, {int64(time.Hour), time.Minute}}
 
+// c28Tok is the per-token state of one Manager history: every token has its own
+// policy, limiters, quota tracker and recorded admits; the clock and the Manager
+// (with its tracker maps and their housekeeping) are shared.
+type c28Tok struct {
+	id          int64
+	pol         c28Pol
+	havePolicy  bool
+	h           *c28Hist
+	justUpdated bool
+	frontier    int64 // latest clock reading at which this token's limiters / tracker were used
+}
+
 func TestVerifC28_Manager(t *testing.T) {
 	defer VerifSetClock(time.Time{})
 	ctx := context.Background()
 	rapid.Check(t, func(t *rapid.T) {
 		now := c28GenBase(t)
 		c28SetClock(now)
-		pol := c28GenPol(t)
+		defPol := c28GenPol(t)
 		useDefaults := rapid.IntRange(0, 3).Draw(t, "defaultsMode") == 0
 		cfg := &config.GovernanceConfig{}
 		if useDefaults {
-			cfg = &config.GovernanceConfig{Enabled: true, DefaultRateLimitPerMin: pol.RPM, DefaultRateLimitPerHour: pol.RPH,
-				DefaultMaxQueriesPerHour: pol.QPH, DefaultMaxQueriesPerDay: pol.QPD}
+			cfg = &config.GovernanceConfig{Enabled: true, DefaultRateLimitPerMin: defPol.RPM, DefaultRateLimitPerHour: defPol.RPH,
+				DefaultMaxQueriesPerHour: defPol.QPH, DefaultMaxQueriesPerDay: defPol.QPD}
 		}
 		m, closeFn := c28NewManager(t, cfg)
 		defer closeFn()
-		token := int64(rapid.IntRange(1, 5).Draw(t, "token"))
-		havePolicy := false
-		h := &c28Hist{monotone: true}
-		if !useDefaults {
-			if _, err := m.CreatePolicy(ctx, pol.policy(token)); err != nil {
-				t.Fatalf("harness: CreatePolicy: %v", err)
+		var glog []string
+		monotone := true
+		var toks []*c28Tok
+		nextID := int64(rapid.IntRange(1, 5).Draw(t, "token"))
+		// addToken registers one more token: under config defaults it simply exists,
+		// otherwise it gets its own policy (the first one reuses the drawn policy).
+		addToken := func(pol c28Pol) *c28Tok {
+			tk := &c28Tok{id: nextID, pol: pol, h: &c28Hist{}, frontier: now}
+			nextID++
+			if !useDefaults {
+				if _, err := m.CreatePolicy(ctx, pol.policy(tk.id)); err != nil {
+					t.Fatalf("harness: CreatePolicy: %v", err)
+				}
+				tk.havePolicy = true
 			}
-			havePolicy = true
+			toks = append(toks, tk)
+			glog = append(glog, fmt.Sprintf("token %d joins at %s policy=%v viaDefaults=%v", tk.id, c28Fmt(now), pol, useDefaults))
+			return tk
 		}
-		h.log = append(h.log, fmt.Sprintf("start %s policy=%v viaDefaults=%v", c28Fmt(now), pol, useDefaults))
+		addToken(defPol)
+		// 1-3 tokens from the start (several tokens share the Manager's maps)
+		for i, n := 0, []int{0, 0, 1, 1, 2}[rapid.IntRange(0, 4).Draw(t, "extraTokens")]; i < n; i++ {
+			if useDefaults {
+				addToken(defPol)
+			} else {
+				addToken(c28GenPol(t))
+			}
+		}
 		exclSlot := verifkit.Excluded(kfC28Slot)
 		exclEdge := verifkit.Excluded(kfC28QuotaEdge)
 		exclBack := verifkit.Excluded(kfC28StepBack)
-		justUpdated := false
-		frontier := now // latest clock reading at which the limiters / quota tracker were used
 		fail := func(class, msg string) {
-			t.Fatalf("VERIF-FAIL class=C28/%s %s\nhistory:\n  %s", class, msg, strings.Join(h.log, "\n  "))
+			t.Fatalf("VERIF-FAIL class=C28/%s %s\nhistory:\n  %s", class, msg, strings.Join(glog, "\n  "))
 		}
+		multi := false
 		steps := rapid.IntRange(4, 45).Draw(t, "steps")
 		for s := 0; s < steps; s++ {
-			act := rapid.IntRange(0, 10).Draw(t, "act")
+			act := rapid.IntRange(0, 11).Draw(t, "act")
+			ti := 0
+			if len(toks) > 1 && rapid.IntRange(0, 2).Draw(t, "otherToken") == 0 {
+				ti = rapid.IntRange(1, len(toks)-1).Draw(t, "tokIdx")
+			}
+			tk := toks[ti]
+			if act == 11 {
+				// a token that has never queried before runs its first query: the Manager
+				// inserts fresh limiters / a fresh quota tracker next to the existing ones
+				if len(toks) >= 6 {
+					continue
+				}
+				if useDefaults {
+					tk = addToken(defPol)
+				} else {
+					tk = addToken(c28GenPol(t))
+				}
+				act = 0
+			}
+			h, pol := tk.h, tk.pol
 			switch {
 			case act <= 6: // arrive / burst
 				nt, what := c28Move(t, now, c28MgrGeoms, h.admitted, true)
@@ -600,20 +646,20 @@ func TestVerifC28_Manager(t *testing.T) {
 				if act >= 5 {
 					n = rapid.IntRange(2, 12).Draw(t, "burst")
 				}
-				ringMin, ringHour, spanMin, spanHour := c28RingLens(m, token)
-				forgot := (pol.RPM > 0 && c28Forgotten(h.admitted, nt, frontier, int64(time.Minute), time.Second, ringMin)) ||
-					(pol.RPH > 0 && c28Forgotten(h.admitted, nt, frontier, int64(time.Hour), time.Minute, ringHour))
-				if forgot && nt >= frontier && exclSlot {
+				ringMin, ringHour, spanMin, spanHour := c28RingLens(m, tk.id)
+				forgot := (pol.RPM > 0 && c28Forgotten(h.admitted, nt, tk.frontier, int64(time.Minute), time.Second, ringMin)) ||
+					(pol.RPH > 0 && c28Forgotten(h.admitted, nt, tk.frontier, int64(time.Hour), time.Minute, ringHour))
+				if forgot && nt >= tk.frontier && exclSlot {
 					verifkit.CountExcluded(kfC28Slot)
 					continue
 				}
-				if forgot && nt < frontier && exclBack {
+				if forgot && nt < tk.frontier && exclBack {
 					verifkit.CountExcluded(kfC28StepBack)
 					continue
 				}
 				// quota counters already reset for a later clock hour than the one the
 				// clock has stepped back into
-				staleQuota := (pol.QPH > 0 || pol.QPD > 0) && nt/c28Hour < frontier/c28Hour
+				staleQuota := (pol.QPH > 0 || pol.QPD > 0) && nt/c28Hour < tk.frontier/c28Hour
 				if staleQuota && exclBack {
 					verifkit.CountExcluded(kfC28StepBack)
 					continue
@@ -630,24 +676,24 @@ func TestVerifC28_Manager(t *testing.T) {
 					h.boundary = true
 				}
 				now = nt
-				if now > frontier {
-					frontier = now
+				if now > tk.frontier {
+					tk.frontier = now
 				}
 				c28SetClock(now)
 				checkUsage := rapid.Bool().Draw(t, "observeUsage")
 				var before *TokenUsage
 				if checkUsage {
-					before = m.GetTokenUsage(token)
+					before = m.GetTokenUsage(tk.id)
 				}
 				outs := make([]c28Outcome, n)
 				reasons := make([]string, n)
 				if n == 1 {
-					outs[0], reasons[0] = c28Request(m, token)
+					outs[0], reasons[0] = c28Request(m, tk.id)
 				} else {
 					var wg sync.WaitGroup
 					for i := 0; i < n; i++ {
 						wg.Add(1)
-						go func(i int) { defer wg.Done(); outs[i], reasons[i] = c28Request(m, token) }(i)
+						go func(i int) { defer wg.Done(); outs[i], reasons[i] = c28Request(m, tk.id) }(i)
 					}
 					wg.Wait()
 				}
@@ -675,32 +721,36 @@ func TestVerifC28_Manager(t *testing.T) {
 					}
 				}
 				h.rejects += n - cnt[c28Admitted]
-				h.log = append(h.log, fmt.Sprintf("%s (%s) x%d policy=%v -> admitted %d, rate-limited(min) %d, rate-limited(hour) %d, quota(hour) %d, quota(day) %d",
-					c28Fmt(now), what, n, pol, cnt[c28Admitted], cnt[c28RateMinute], cnt[c28RateHour], cnt[c28QuotaHour], cnt[c28QuotaDay]))
+				if ti != 0 && cnt[c28Admitted] > 0 {
+					multi = true
+				}
+				glog = append(glog, fmt.Sprintf("%s token %d (%s) x%d policy=%v -> admitted %d, rate-limited(min) %d, rate-limited(hour) %d, quota(hour) %d, quota(day) %d",
+					c28Fmt(now), tk.id, what, n, pol, cnt[c28Admitted], cnt[c28RateMinute], cnt[c28RateHour], cnt[c28QuotaHour], cnt[c28QuotaDay]))
+				who := fmt.Sprintf("token %d: ", tk.id)
 
 				// 1. sliding windows over admitted queries
 				if ok, msg := c28CheckWindow(h.admMin, fMin, int64(time.Minute)); !ok {
-					fail("minute-window-exceeded", msg)
+					fail("minute-window-exceeded", who+msg)
 				}
 				if ok, msg := c28CheckWindow(h.admHour, fHour, int64(time.Hour)); !ok {
-					fail("hour-window-exceeded", msg)
+					fail("hour-window-exceeded", who+msg)
 				}
 				// 2. quotas per clock hour / UTC day
 				if ok, msg := c28CheckBuckets(h.admQH, fAdm, c28Hour, "clock hour"); !ok {
-					fail("hour-quota-exceeded", msg)
+					fail("hour-quota-exceeded", who+msg)
 				}
 				if ok, msg := c28CheckBuckets(h.admQD, fAdm, c28Day, "UTC day"); !ok {
-					fail("day-quota-exceeded", msg)
+					fail("day-quota-exceeded", who+msg)
 				}
 				// 3. a rate-limited query consumes no quota
 				if checkUsage {
-					after := m.GetTokenUsage(token)
+					after := m.GetTokenUsage(tk.id)
 					reached := cnt[c28Admitted] + cnt[c28QuotaHour] + cnt[c28QuotaDay]
 					dh := after.QueriesThisHour - before.QueriesThisHour
 					dd := after.QueriesThisDay - before.QueriesThisDay
 					rl := cnt[c28RateMinute] + cnt[c28RateHour]
 					if rl > 0 && (dh > reached || dd > reached) {
-						fail("rate-limited-consumed-quota", fmt.Sprintf("%d request(s) were rate-limited and only %d reached the quota check, yet usage grew by hour=%d day=%d", rl, reached, dh, dd))
+						fail("rate-limited-consumed-quota", fmt.Sprintf("%s%d request(s) were rate-limited and only %d reached the quota check, yet usage grew by hour=%d day=%d", who, rl, reached, dh, dd))
 					}
 					if rl > 0 {
 						verifkit.Class("manager/rate-limited-usage-observed")
@@ -709,48 +759,48 @@ func TestVerifC28_Manager(t *testing.T) {
 				// 4. limit changes apply to the next request: a rejection right after the
 				// update must be explained by the NEW limits (counted over requests that
 				// passed the respective stage).
-				if justUpdated && h.monotone {
+				if tk.justUpdated && monotone {
 					if cnt[c28RateMinute] > 0 && pol.RPM > 0 {
 						if got := c28CountIn(h.passMin, now, spanMin); got < pol.RPM {
-							fail("new-limit-not-applied", fmt.Sprintf("per-minute rejection right after the update to %d although only %d requests passed the minute limiter in the last minute", pol.RPM, got))
+							fail("new-limit-not-applied", fmt.Sprintf("%sper-minute rejection right after the update to %d although only %d requests passed the minute limiter in the last minute", who, pol.RPM, got))
 						}
 					}
 					if cnt[c28RateHour] > 0 && pol.RPH > 0 {
 						if got := c28CountIn(h.passHour, now, spanHour); got < pol.RPH {
-							fail("new-limit-not-applied", fmt.Sprintf("per-hour rejection right after the update to %d although only %d requests passed the hour limiter in the last hour", pol.RPH, got))
+							fail("new-limit-not-applied", fmt.Sprintf("%sper-hour rejection right after the update to %d although only %d requests passed the hour limiter in the last hour", who, pol.RPH, got))
 						}
 					}
 					if cnt[c28QuotaHour] > 0 && pol.QPH > 0 && !onEdge {
 						if got := c28BucketCount(h.admitted, now, c28Hour); got < pol.QPH {
-							fail("new-limit-not-applied", fmt.Sprintf("hourly-quota rejection right after the update to %d although only %d queries were admitted in this clock hour", pol.QPH, got))
+							fail("new-limit-not-applied", fmt.Sprintf("%shourly-quota rejection right after the update to %d although only %d queries were admitted in this clock hour", who, pol.QPH, got))
 						}
 					}
 					if cnt[c28QuotaDay] > 0 && pol.QPD > 0 && !onEdge {
 						if got := c28BucketCount(h.admitted, now, c28Day); got < pol.QPD {
-							fail("new-limit-not-applied", fmt.Sprintf("daily-quota rejection right after the update to %d although only %d queries were admitted in this UTC day", pol.QPD, got))
+							fail("new-limit-not-applied", fmt.Sprintf("%sdaily-quota rejection right after the update to %d although only %d queries were admitted in this UTC day", who, pol.QPD, got))
 						}
 					}
 				}
-				justUpdated = false
+				tk.justUpdated = false
 			case act == 7 || act == 8: // updateLimit
 				np := c28Regen(t, pol)
 				var err error
-				if havePolicy {
-					_, err = m.UpdatePolicy(ctx, np.policy(token))
+				if tk.havePolicy {
+					_, err = m.UpdatePolicy(ctx, np.policy(tk.id))
 				} else {
-					_, err = m.CreatePolicy(ctx, np.policy(token))
-					havePolicy = true
+					_, err = m.CreatePolicy(ctx, np.policy(tk.id))
+					tk.havePolicy = true
 				}
 				if err != nil {
 					t.Fatalf("harness: update policy: %v", err)
 				}
-				pol = np
-				justUpdated = true
-				h.log = append(h.log, fmt.Sprintf("update policy -> %v", pol))
+				tk.pol = np
+				tk.justUpdated = true
+				glog = append(glog, fmt.Sprintf("token %d update policy -> %v", tk.id, np))
 			case act == 9: // clock jump forward (no request at the landing instant)
 				now += rapid.Int64Range(0, 3*c28Hour).Draw(t, "jumpFwd")
 				c28SetClock(now)
-				h.log = append(h.log, "clock jumps forward to "+c28Fmt(now))
+				glog = append(glog, "clock jumps forward to "+c28Fmt(now))
 			case act == 10: // clock steps back
 				var back int64
 				if rapid.Bool().Draw(t, "smallBack") {
@@ -760,8 +810,8 @@ func TestVerifC28_Manager(t *testing.T) {
 				}
 				now -= back
 				c28SetClock(now)
-				h.monotone = false
-				h.log = append(h.log, "clock steps BACK to "+c28Fmt(now))
+				monotone = false
+				glog = append(glog, "clock steps BACK to "+c28Fmt(now))
 			}
 		}
 		verifkit.Eval()
@@ -770,19 +820,32 @@ func TestVerifC28_Manager(t *testing.T) {
 		} else {
 			verifkit.Class("manager/per-token-policy")
 		}
-		if !h.monotone {
+		verifkit.Class(fmt.Sprintf("manager/tokens=%d", len(toks)))
+		if multi {
+			verifkit.Class("manager/several-tokens-admitted")
+		}
+		if !monotone {
 			verifkit.Class("manager/with-backward-step")
 		}
-		if h.rotated {
+		rejects, admitted, rotated, boundary := 0, 0, false, false
+		for _, tk := range toks {
+			rejects += tk.h.rejects
+			if len(tk.h.admitted) > admitted {
+				admitted = len(tk.h.admitted)
+			}
+			rotated = rotated || tk.h.rotated
+			boundary = boundary || tk.h.boundary
+		}
+		if rotated {
 			verifkit.Class("manager/rotated-apart")
 		}
-		if h.boundary {
+		if boundary {
 			verifkit.Class("manager/on-hour-boundary-instant")
 		}
-		if h.rejects > 0 && len(h.admitted) >= 2 {
-			verifkit.NonTrivial(strings.Join(h.log, "|"))
+		if rejects > 0 && admitted >= 2 {
+			verifkit.NonTrivial(strings.Join(glog, "|"))
 			if verifkit.SampleCount() < 4 {
-				verifkit.Sample(map[string]any{"kind": "manager", "history": h.log})
+				verifkit.Sample(map[string]any{"kind": "manager", "history": glog})
 			}
 		}
 	})
